@@ -48,6 +48,27 @@ DOCUMENTED = {
 }
 
 
+def exc_categories(exc: BaseException) -> List[str]:
+    """every documented category the exception belongs to (an exception class may be e.g. both a USLP
+    error and a ValueError subclass; a refusal counts as the class a property names if it is an
+    instance of it)"""
+    from spacepackets.ecss.tc import InvalidTcCrc16
+    from spacepackets.ecss.tm import InvalidTmCrc16
+    from spacepackets.cfdp.exceptions import InvalidCrc, TlvTypeMissmatch
+    from spacepackets.cfdp.defs import UnsupportedCfdpVersion
+    from spacepackets.ecss.pus_1_verification import InvalidVerifParams
+    import spacepackets.uslp.defs as ud
+
+    uslp = tuple(getattr(ud, n) for n in dir(ud) if n.startswith("Uslp") and isinstance(getattr(ud, n), type))
+    cats = []
+    for cat, classes in (("crc", (InvalidTcCrc16, InvalidTmCrc16, InvalidCrc)), ("cfdp_version", (UnsupportedCfdpVersion,)),
+                         ("tlv_type", (TlvTypeMissmatch,)), ("uslp", uslp), ("verif_params", (InvalidVerifParams,)),
+                         ("overflow", (OverflowError,)), ("file_not_found", (FileNotFoundError,)), ("value", (ValueError,))):
+        if classes and isinstance(exc, classes):
+            cats.append(cat)
+    return cats
+
+
 def exc_category(exc: BaseException) -> str:
     import struct as _struct
     from spacepackets.ecss.tc import InvalidTcCrc16
@@ -179,6 +200,9 @@ def run_impl(ops: Dict[str, Callable], case: Case) -> Dict[str, Any]:
     except BaseException as e:  # noqa
         cat = exc_category(e)
         r = {"err": cat}
+        cats = exc_categories(e)
+        if len(cats) > 1:
+            r["errs"] = cats
         if cat not in DOCUMENTED:
             r["detail"] = f"{type(e).__name__}: {e}"[:300]
         return r
@@ -258,7 +282,7 @@ def compare(case: Case, impl: Dict[str, Any], model: Dict[str, Any]) -> Optional
         if impl_ok:
             return Violation("accepted_invalid", op, model, impl,
                              note="input that must be refused was accepted", expect=case.expect)
-        if case.errclass and impl["err"] != model["err"]:
+        if case.errclass and model["err"] not in impl.get("errs", [impl["err"]]):
             return Violation("spec_mismatch", op, model, impl,
                              note="refused with a different error class than the property names", expect=case.expect)
         return None
@@ -271,7 +295,7 @@ def compare(case: Case, impl: Dict[str, Any], model: Dict[str, Any]) -> Optional
         if a != b:
             return Violation("correspondence", op, model, impl, concrete=False,
                              note="decoded values differ between model and implementation", expect=case.expect)
-    elif case.errclass and impl["err"] != model["err"]:
+    elif case.errclass and model["err"] not in impl.get("errs", [impl["err"]]):
         return Violation("correspondence", op, model, impl, concrete=False,
                          note="error class differs", expect=case.expect)
     return None
